@@ -88,6 +88,9 @@ def check(ctx):
     cat_ = [n for n in ast.walk(rs) if isinstance(n, ast.DictComp)]
     ok = len(cat_) == 1 and eqv(cat_[0].value, "(methods.concat, [(new_name, j) for j in range(start, end)])") and eqv(cat_[0].generators[0].iter, "enumerate(zip(self._partition_boundaries, self._partition_boundaries[1:]))")
     ctx.ob("ABS.size.tiling", rs, "output i = concat of pieces range(b[i], b[i+1]) over consecutive boundaries", ok)
+    from .C41 import division_location
+
+    division_location(ctx)
 
 
 VARIANTS = [
